@@ -358,7 +358,8 @@ fn split_merge_laws<const N: usize, const G: usize, const M: usize>() {
 }
 
 #[kani::proof]
-#[kani::unwind(18)]
+#[kani::unwind(10)]
+#[kani::solver(kissat)]
 #[kani::stub(alloc::fmt::format, fmt_stub)]
 fn c09_split_merge__n4_g2() {
     split_merge_laws::<4, 2, 2>();
@@ -615,8 +616,8 @@ mod c02 {
     }
     // coefficient j of X^p * a in Z[X]/(X^n+1)
     fn rot(a: &[i64], p: i64, j: usize) -> i64 {
-        let n = a.len() as i64;
-        let k = (j as i64 - p).rem_euclid(2 * n);
+        let n = a.len() as i128;
+        let k = (j as i128 - p as i128).rem_euclid(2 * n);
         if k < n { a[k as usize] } else { -a[(k - n) as usize] }
     }
 
@@ -646,21 +647,21 @@ mod c02 {
         }
     }
     #[kani::proof]
-    #[kani::unwind(8)]
+    #[kani::unwind(14)]
     #[kani::stub(alloc::fmt::format, fmt_stub)]
     fn c02_glwe_add_sub__ranks_1_1() { add_sub::<1, 1>(); }
     #[kani::proof]
-    #[kani::unwind(8)]
+    #[kani::unwind(14)]
     #[kani::stub(alloc::fmt::format, fmt_stub)]
     fn c02_glwe_add_sub__ranks_2_0() { add_sub::<2, 0>(); }
     #[kani::proof]
-    #[kani::unwind(8)]
+    #[kani::unwind(14)]
     #[kani::stub(alloc::fmt::format, fmt_stub)]
     fn c02_glwe_add_sub__ranks_0_1() { add_sub::<0, 1>(); }
 
     /// in-place add/sub, negate, copy
     #[kani::proof]
-    #[kani::unwind(8)]
+    #[kani::unwind(14)]
     #[kani::stub(alloc::fmt::format, fmt_stub)]
     fn c02_glwe_assign_negate_copy__rank1() {
         const N: usize = 2;
@@ -691,7 +692,7 @@ mod c02 {
 
     /// rotation by X^p and multiplication by (X^p - 1), every p in i64, out-of-place and in-place
     #[kani::proof]
-    #[kani::unwind(10)]
+    #[kani::unwind(12)]
     #[kani::stub(alloc::fmt::format, fmt_stub)]
     fn c02_glwe_rotate_mul_xp__n4_rank1() {
         const N: usize = 4;
@@ -761,7 +762,7 @@ mod c11_ak {
         let col: usize = kani::any();
         kani::assume(col < 2);
         // pre-state of the other column, to check the frame
-        let mut other1 = [0u64; N * R_SIZE];
+        let mut other1 = vec![0u64; N * R_SIZE];
         let mut j = 0;
         while j < R_SIZE {
             let mut k = 0;
@@ -788,7 +789,7 @@ mod c11_ak {
     macro_rules! ak_dft_apply {
         ($name:ident, $a:expr, $r:expr, $s:expr, $o:expr) => {
             #[kani::proof]
-            #[kani::unwind(26)]
+            #[kani::unwind(50)]
             #[kani::stub(alloc::fmt::format, super::fmt_stub)]
             #[kani::stub(crate::reference::fft64::reim::table_fft::fill_fft4_omegas, fill_stub)]
             #[kani::stub(crate::reference::fft64::reim::table_ifft::fill_ifft4_omegas, fill_stub)]
@@ -830,9 +831,7 @@ mod c11_ak {
         let bytes = module.vmp_apply_dft_to_dft_tmp_bytes(R_SIZE, A_SIZE, ROWS, 1, 1, P_SIZE);
         let mut s1: ScratchOwned<crate::FFT64Ref> = ScratchOwned::alloc(bytes);
         let mut s2: ScratchOwned<crate::FFT64Ref> = ScratchOwned::alloc(bytes);
-        for x in s2.data.as_mut().iter_mut() {
-            *x = 0x41;
-        }
+        s2.data.as_mut().fill(0x41);
         module.vmp_apply_dft_to_dft(&mut r1, &a, &pmat, LIMB_OFFSET, s1.borrow());
         module.vmp_apply_dft_to_dft(&mut r2, &a, &pmat, LIMB_OFFSET, s2.borrow());
         let mut t = 0;
@@ -844,7 +843,7 @@ mod c11_ak {
     macro_rules! ak_vmp {
         ($name:ident, $a:expr, $rows:expr, $ps:expr, $r:expr, $lo:expr) => {
             #[kani::proof]
-            #[kani::unwind(34)]
+            #[kani::unwind(50)]
             #[kani::stub(alloc::fmt::format, super::fmt_stub)]
             #[kani::stub(crate::reference::fft64::reim::table_fft::fill_fft4_omegas, fill_stub)]
             #[kani::stub(crate::reference::fft64::reim::table_ifft::fill_ifft4_omegas, fill_stub)]
@@ -857,4 +856,280 @@ mod c11_ak {
     ak_vmp!(c11_ak_vmp_apply__a2_rows2_p3_r3_lo2, 2, 2, 3, 3, 2);
     ak_vmp!(c11_ak_vmp_apply__a2_rows2_p3_r3_lo0, 2, 2, 3, 3, 0);
     ak_vmp!(c11_ak_vmp_apply__a3_rows2_p2_r3_lo1, 3, 2, 2, 3, 1);
+}
+
+// ------------------------------------------------------------------------------------------------
+// C18 — ciphertext wrappers (GLWE, LWE, GLWECompressed): a failed read leaves the metadata unchanged ("updated atomically
+// after a successful read"), for every truncation point of a valid stream; a complete stream is accepted and reproduced.
+// ------------------------------------------------------------------------------------------------
+mod c18_wrappers {
+    use super::fmt_stub;
+    use poulpy_core::layouts::{GLWECompressed, GLWEInfos, LWEInfos, GLWE, LWE};
+    use poulpy_hal::layouts::{ReaderFrom, WriterTo};
+    use std::io::Cursor;
+
+    #[kani::proof]
+    #[kani::unwind(6)]
+    #[kani::stub(alloc::fmt::format, fmt_stub)]
+    fn c18_glwe_read_truncated() {
+        // stream: base2k (u32 = 9) ++ VecZnx header (n=2, cols=2, size=1, max_size=1, len=32) ++ 32 payload bytes
+        let mut bytes = [0u8; 4 + 40 + 32];
+        bytes[0] = 9;
+        bytes[4] = 2; bytes[12] = 2; bytes[20] = 1; bytes[28] = 1; bytes[36] = 32;
+        let mut g: GLWE<Vec<u8>> = GLWE::alloc(2u32.into(), 8u32.into(), 8u32.into(), 1u32.into());
+        let total: usize = kani::any();
+        kani::assume(total <= bytes.len());
+        let mut cur = Cursor::new(&bytes[..total]);
+        let r = g.read_from(&mut cur);
+        if total < bytes.len() {
+            assert!(r.is_err(), "C18:truncated stream rejected");
+            assert!(g.base2k().0 == 8 && g.size() == 1 && g.rank().0 == 1, "C18:Err leaves wrapper metadata unchanged");
+        } else {
+            assert!(r.is_ok() && g.base2k().0 == 9, "C18:complete stream accepted, metadata from the stream");
+        }
+    }
+
+    #[kani::proof]
+    #[kani::unwind(6)]
+    #[kani::stub(alloc::fmt::format, fmt_stub)]
+    fn c18_lwe_read_truncated() {
+        let mut src: LWE<Vec<u8>> = LWE::alloc(2u32.into(), 9u32.into(), 9u32.into());
+        let mut stream: Vec<u8> = Vec::new();
+        assert!(src.write_to(&mut stream).is_ok());
+        let mut l: LWE<Vec<u8>> = LWE::alloc(2u32.into(), 8u32.into(), 8u32.into());
+        let total: usize = kani::any();
+        kani::assume(total <= stream.len());
+        let mut cur = Cursor::new(&stream[..total]);
+        let r = l.read_from(&mut cur);
+        if total < stream.len() {
+            assert!(r.is_err() && l.base2k().0 == 8, "C18:Err leaves wrapper metadata unchanged");
+        } else {
+            assert!(r.is_ok() && l.base2k().0 == 9, "C18:complete stream accepted");
+        }
+        let _ = &mut src;
+    }
+
+    #[kani::proof]
+    #[kani::unwind(40)]
+    #[kani::stub(alloc::fmt::format, fmt_stub)]
+    fn c18_glwe_compressed_read_truncated() {
+        use poulpy_core::layouts::{GLWECompressedSeed, GLWECompressedSeedMut};
+        let mut src: GLWECompressed<Vec<u8>> = GLWECompressed::alloc(2u32.into(), 9u32.into(), 9u32.into(), 2u32.into());
+        *src.seed_mut() = [7u8; 32];
+        let mut stream: Vec<u8> = Vec::new();
+        assert!(src.write_to(&mut stream).is_ok());
+        let mut c: GLWECompressed<Vec<u8>> = GLWECompressed::alloc(2u32.into(), 8u32.into(), 8u32.into(), 1u32.into());
+        let total: usize = kani::any();
+        kani::assume(total <= stream.len());
+        let mut cur = Cursor::new(&stream[..total]);
+        let r = c.read_from(&mut cur);
+        if total < stream.len() {
+            assert!(r.is_err() && c.base2k().0 == 8 && c.rank().0 == 1 && c.seed()[0] == 0 && c.seed()[31] == 0, "C18:Err leaves wrapper metadata (base2k, rank, seed) unchanged");
+        } else {
+            assert!(r.is_ok() && c.base2k().0 == 9 && c.rank().0 == 2 && c.seed()[0] == 7, "C18:complete stream accepted");
+        }
+    }
+}
+
+mod c02b {
+    use super::fmt_stub;
+    use poulpy_core::layouts::GLWE;
+    use poulpy_core::GLWESub;
+    use poulpy_hal::layouts::{Module, ZnxView, ZnxViewMut};
+    type BE = crate::FFT64Ref;
+
+    /// res <- a - res with a of rank 0 and res of rank 1: the column `a` does not have counts as zero, so it is negated
+    #[kani::proof]
+    #[kani::unwind(8)]
+    #[kani::stub(alloc::fmt::format, fmt_stub)]
+    fn c02_glwe_sub_negate_assign__ranks_0_1() {
+        const N: usize = 2;
+        let module: Module<BE> = Module::new_marker(N as u64);
+        let mut a: GLWE<Vec<u8>> = GLWE::alloc((N as u32).into(), 8u32.into(), 8u32.into(), 0u32.into());
+        let mut r: GLWE<Vec<u8>> = GLWE::alloc((N as u32).into(), 8u32.into(), 8u32.into(), 1u32.into());
+        for x in a.data_mut().raw_mut().iter_mut() {
+            *x = kani::any();
+            kani::assume(*x >= -(1 << 61) && *x <= (1 << 61));
+        }
+        for x in r.data_mut().raw_mut().iter_mut() {
+            *x = kani::any();
+            kani::assume(*x >= -(1 << 61) && *x <= (1 << 61));
+        }
+        let r0 = r.clone();
+        module.glwe_sub_negate_assign(&mut r, &a);
+        let mut k = 0;
+        while k < N {
+            assert!(r.data().at(0, 0)[k] == a.data().at(0, 0)[k] - r0.data().at(0, 0)[k], "C02:glwe_sub_negate_assign column 0 == a - res");
+            assert!(r.data().at(1, 0)[k] == -r0.data().at(1, 0)[k], "C02:glwe_sub_negate_assign: a column missing in `a` counts as zero (res = -res)");
+            k += 1;
+        }
+    }
+}
+
+// ------------------------------------------------------------------------------------------------
+// C08 — vec_znx_normalize (same and cross radix, signed bit offset) against the exact torus value (bounded in shape:
+// N = 1, sizes <= 2, radices <= 5, offset a constant per harness; limb values symbolic incl. un-normalised ones, stale
+// garbage in the result).  Oracle from the property statement:  val(res) == val(a) * 2^offset (mod 1) within one unit
+// of res's last limb; for equal radices every output digit is balanced.
+// ------------------------------------------------------------------------------------------------
+mod c08_norm {
+    use super::fmt_stub;
+    use crate::reference::vec_znx::vec_znx_normalize;
+    use crate::reference::znx::ZnxRef;
+    use poulpy_hal::layouts::{VecZnx, ZnxView, ZnxViewMut};
+
+    fn normalize_case<const BA: usize, const BR: usize, const SA: usize, const SR: usize>(off: i64) {
+        let mut a: VecZnx<Vec<u8>> = VecZnx::alloc(1, 1, SA);
+        let mut r: VecZnx<Vec<u8>> = VecZnx::alloc(1, 1, SR);
+        let mut av = [0i64; 2];
+        let mut j = 0;
+        while j < SA {
+            let x: i64 = kani::any();
+            kani::assume(x > -(1 << 20) && x < (1 << 20)); // un-normalised inputs, well inside the headroom
+            a.at_mut(0, j)[0] = x;
+            av[j] = x;
+            j += 1;
+        }
+        j = 0;
+        while j < SR {
+            r.at_mut(0, j)[0] = kani::any(); // stale garbage
+            j += 1;
+        }
+        let mut carry = [0i64; 3];
+        vec_znx_normalize::<_, _, ZnxRef>(&mut r, BR, off, 0, &a, BA, 0, &mut carry);
+        // integer numerators
+        let mut va: i128 = 0;
+        j = 0;
+        while j < SA {
+            va += (av[j] as i128) << (BA * (SA - 1 - j));
+            j += 1;
+        }
+        let mut vr: i128 = 0;
+        j = 0;
+        while j < SR {
+            let d = r.at(0, j)[0];
+            if BA == BR {
+                assert!(d >= -(1i64 << (BR - 1)) && d < (1i64 << (BR - 1)), "C08:output digit balanced (equal radices)");
+            }
+            vr += (d as i128) << (BR * (SR - 1 - j));
+            j += 1;
+        }
+        // compare vr * 2^{-BR*SR} with va * 2^{-BA*SA + off} modulo 1, tolerance one unit of res's last limb
+        let neg: u32 = if off < 0 { (-off) as u32 } else { 0 };
+        let pos: u32 = if off > 0 { off as u32 } else { 0 };
+        let lhs: i128 = vr << ((BA * SA) as u32 + neg);
+        let rhs: i128 = va << ((BR * SR) as u32 + pos);
+        let m: i128 = 1i128 << ((BA * SA + BR * SR) as u32 + neg);
+        let unit: i128 = 1i128 << ((BA * SA) as u32 + neg);
+        let e = (lhs - rhs).rem_euclid(m);
+        assert!(e <= unit || e >= m - unit, "C08:res represents a * 2^offset on the torus within one unit of its last limb");
+    }
+
+    macro_rules! norm_harness {
+        ($name:ident, $ba:expr, $br:expr, $sa:expr, $sr:expr, $off:expr) => {
+            #[kani::proof]
+            #[kani::unwind(8)]
+            #[kani::stub(alloc::fmt::format, fmt_stub)]
+            fn $name() {
+                normalize_case::<$ba, $br, $sa, $sr>($off);
+            }
+        };
+    }
+    // same radix
+    norm_harness!(c08_normalize__b4_b4_s2_s2_off0, 4, 4, 2, 2, 0);
+    norm_harness!(c08_normalize__b4_b4_s2_s2_offm5, 4, 4, 2, 2, -5);
+    norm_harness!(c08_normalize__b4_b4_s2_s2_off3, 4, 4, 2, 2, 3);
+    norm_harness!(c08_normalize__b4_b4_s2_s1_offm4, 4, 4, 2, 1, -4);
+    norm_harness!(c08_normalize__b4_b4_s1_s2_off4, 4, 4, 1, 2, 4);
+    norm_harness!(c08_normalize__b4_b4_s2_s2_off9, 4, 4, 2, 2, 9);
+    // cross radix
+    norm_harness!(c08_normalize__b3_b4_s2_s2_off0, 3, 4, 2, 2, 0);
+    norm_harness!(c08_normalize__b4_b3_s2_s2_off0, 4, 3, 2, 2, 0);
+    norm_harness!(c08_normalize__b5_b4_s2_s2_offm2, 5, 4, 2, 2, -2);
+    norm_harness!(c08_normalize__b4_b5_s2_s1_off1, 4, 5, 2, 1, 1);
+    // shifts that move the input entirely below the output with an empty limb in between (DESIGN §6-10)
+    norm_harness!(c08_normalize__b4_b4_s1_s1_offm9_gap, 4, 4, 1, 1, -9);
+    norm_harness!(c08_normalize__b4_b4_s1_s1_offm5_gap, 4, 4, 1, 1, -5);
+}
+
+// C08 — shifts (bounded: N = 1, radix 4, size 2, shift amount constant per harness): lsh / rsh / rsh_assign / lsh_assign
+// represent a * 2^(+-k) on the torus within one unit of the last limb, balanced digits, no panic for any amount
+// (including amounts larger than the precision).
+mod c08_shift {
+    use super::fmt_stub;
+    use crate::reference::vec_znx::{vec_znx_lsh, vec_znx_lsh_assign, vec_znx_rsh, vec_znx_rsh_assign};
+    use crate::reference::znx::ZnxRef;
+    use poulpy_hal::layouts::{VecZnx, ZnxView, ZnxViewMut};
+    const B: usize = 4;
+    const S: usize = 2;
+
+    fn val(v: &VecZnx<Vec<u8>>) -> i128 {
+        ((v.at(0, 0)[0] as i128) << B) + v.at(0, 1)[0] as i128
+    }
+    fn check(res: &VecZnx<Vec<u8>>, va: i128, off: i64) {
+        let mut j = 0;
+        while j < S {
+            let d = res.at(0, j)[0];
+            assert!(d >= -(1 << (B - 1)) && d < (1 << (B - 1)), "C08:shift output digit balanced");
+            j += 1;
+        }
+        let vr = val(res);
+        let neg: u32 = if off < 0 { (-off) as u32 } else { 0 };
+        let pos: u32 = if off > 0 { off as u32 } else { 0 };
+        let m: i128 = 1i128 << ((B * S) as u32 + neg);
+        let unit: i128 = 1i128 << neg;
+        let e = ((vr << neg) - (va << pos)).rem_euclid(m);
+        assert!(e <= unit || e >= m - unit, "C08:shift result == a * 2^(+-k) on the torus within one unit of the last limb");
+    }
+    fn input() -> (VecZnx<Vec<u8>>, i128) {
+        let mut a: VecZnx<Vec<u8>> = VecZnx::alloc(1, 1, S);
+        let mut j = 0;
+        while j < S {
+            let x: i64 = kani::any();
+            kani::assume(x >= -(1 << (B - 1)) && x < (1 << (B - 1))); // normalised input (shifts document normalised inputs)
+            a.at_mut(0, j)[0] = x;
+            j += 1;
+        }
+        let v = val(&a);
+        (a, v)
+    }
+
+    fn shift_case(k: usize) {
+        let (a, va) = input();
+        let mut carry = [0i64; 4];
+        let mut r: VecZnx<Vec<u8>> = VecZnx::alloc(1, 1, S);
+        r.at_mut(0, 0)[0] = kani::any();
+        r.at_mut(0, 1)[0] = kani::any();
+        vec_znx_lsh::<_, _, ZnxRef, true>(B, k, &mut r, 0, &a, 0, &mut carry);
+        check(&r, va, k as i64);
+        let mut r2: VecZnx<Vec<u8>> = VecZnx::alloc(1, 1, S);
+        r2.at_mut(0, 0)[0] = kani::any();
+        r2.at_mut(0, 1)[0] = kani::any();
+        vec_znx_rsh::<_, _, ZnxRef, true>(B, k, &mut r2, 0, &a, 0, &mut carry);
+        check(&r2, va, -(k as i64));
+        let mut li = a.clone();
+        vec_znx_lsh_assign::<_, ZnxRef>(B, k, &mut li, 0, &mut carry);
+        check(&li, va, k as i64);
+        let mut ri = a.clone();
+        vec_znx_rsh_assign::<_, ZnxRef>(B, k, &mut ri, 0, &mut carry);
+        check(&ri, va, -(k as i64));
+    }
+    macro_rules! shift_harness {
+        ($name:ident, $k:expr) => {
+            #[kani::proof]
+            #[kani::unwind(8)]
+            #[kani::stub(alloc::fmt::format, fmt_stub)]
+            fn $name() {
+                shift_case($k);
+            }
+        };
+    }
+    shift_harness!(c08_shift__b4_s2_k0, 0);
+    shift_harness!(c08_shift__b4_s2_k1, 1);
+    shift_harness!(c08_shift__b4_s2_k3, 3);
+    shift_harness!(c08_shift__b4_s2_k4, 4);
+    shift_harness!(c08_shift__b4_s2_k5, 5);
+    shift_harness!(c08_shift__b4_s2_k8, 8);
+    shift_harness!(c08_shift__b4_s2_k9, 9);
+    shift_harness!(c08_shift__b4_s2_k13, 13);
 }
